@@ -1,5 +1,6 @@
 /- C05 — transaction lifecycle. -/
 import HtpModel.Lemmas.Conn
+import HtpModel.Lemmas.EventsMonoOut
 
 namespace Htp.C05
 open Htp.Conn Htp.Gen
@@ -61,5 +62,25 @@ theorem C05_response_complete_guard (cfg : Cfg) (uid : Nat) (c : Conn) (t : Tx)
        txFinalize cfg uid c >>? fun c => ({ c with out := { c.out with tx := none }, outState := ResState.idle }, Rc.ok)) := by
   unfold txStateResponseCompleteEx
   simp [ht, hp, R.andThen]
+
+/-- **C05 (the callback log is append-only, over whole histories)**: the lifecycle clauses - start, line, headers, body data, trailer, complete in
+    that order, each at most once, nothing after transaction-complete - are statements about the sequence of callbacks delivered. That sequence
+    is never rewritten: for every history of calls (request and response chunks in any interleaving, gaps, close, req_close, open, tx_freed, any
+    configuration and callback policy) and every prefix of it, what was delivered after the prefix is still there after the whole history, in
+    the same order, with newer callbacks added at the end only; and on a fresh connection parser the number of callbacks run equals the
+    length of the log (`Lemmas/EventsMono.lean`, `EventsMonoOut.lean`: only `runCallback` writes the log, one entry per callback, proved for every
+    function of both directions). The order and at-most-once clauses themselves are decided on the implementation's log by the lifecycle
+    Monitor (they are false at the recorded findings S2, S24, S25, S26). -/
+theorem C05_history_log_append_only (cfg : Cfg) (c0 : Conn) (calls pre : List Call) (hp : pre <+: calls) :
+    (∃ new, (runCalls cfg c0 calls).events = new ++ (runCalls cfg c0 pre).events ∧
+            (runCalls cfg c0 calls).cbCount = (runCalls cfg c0 pre).cbCount + new.length) ∧
+    (∀ e1 e2, [e1, e2].Sublist (runCalls cfg c0 pre).events → [e1, e2].Sublist (runCalls cfg c0 calls).events) ∧
+    (runCalls cfg {} calls).cbCount = (runCalls cfg {} calls).events.length :=
+  ⟨history_events_prefix cfg c0 hp, fun _ _ h => history_event_order_stable cfg c0 hp h, history_cbCount_eq_length cfg calls⟩
+
+/-- non-vacuity: a GET and its 200 response with a 5-byte body deliver 15 callbacks -/
+example :
+    (runCalls {} {} [.open, .req (b!"GET / HTTP/1.1\r\nHost: h\r\n\r\n"), .res (b!"HTTP/1.1 200 OK\r\nContent-Length: 5\r\n\r\nhello")]).cbCount = 15 := by
+  decide
 
 end Htp.C05
